@@ -32,7 +32,7 @@ NOT_DECIDED = ["equality of coordinates within the format's precision (numerical
                "value ranges against field widths (overflow)", "gro time regex vs the %s spelling of floats"]
 ASSUMPTIONS = ["in_units_of(q, a, b) converts from a to b and is the only unit conversion used at the file boundary",
                "the format specifications fix: xtc/trr/gro/h5/lh5 nm; dcd/netcdf/rst7/ncrst/mdcrd/xyz/lammpstrj(real)/pdb/dtr/arc angstrom"]
-FLOORS = {"C01-R8": 27, "C01-R1": 50, "C01-R2": 60, "C01-R3": 20, "C01-R4": 25, "C01-R5": 25, "C01-R6": 8, "C01-R7": 6}
+FLOORS = {"C01-R8": 46, "C01-R1": 50, "C01-R2": 60, "C01-R3": 20, "C01-R4": 25, "C01-R5": 25, "C01-R6": 8, "C01-R7": 6}
 
 TRAJ = "mdtraj/core/trajectory.py"
 WRITABLE = [".h5", ".xtc", ".trr", ".dcd", ".nc", ".netcdf", ".ncdf", ".mdcrd", ".crd", ".xyz", ".xyz.gz", ".lammpstrj", ".gro",
@@ -373,32 +373,7 @@ def _r4(ctx):
             widths = [s["end"] - s["start"] for s in sp if s["kind"] == "field"]
             ctx.decide(widths == [9, 9, 9, 7, 7, 7] and precs == [3, 3, 3, 2, 2, 2], "C01-R4", hfn, rel, "PDBTrajectoryFile._write_header", "CRYST1 fields 9.3 x3, 7.2 x3", "",
                        "CRYST1 fields are %s" % list(zip(widths, precs)))
-    # ---- mdcrd --------------------------------------------------------------------------------------------
-    rel, cls = F.rel_cls("mdcrd")
-    w = F.method(ctx, "mdcrd", "write")
-    r = F.method(ctx, "mdcrd", "_read")
-    wf = [const(n.left) for n in walk_no_nested(w) if isinstance(n, ast.BinOp) and isinstance(n.op, ast.Mod) and isinstance(const(n.left), str) and "f" in const(n.left)]
-    fw = None
-    for cand in wf:
-        it = [x for x in L.parse_percent(cand) if x[0] == "field" and x[3] in "fFeEgG"]
-        if it:
-            fw = (it[0][1], it[0][2])
-            break
-    ctx.decide(fw == (8, 3), "C01-R4", w, rel, cls + ".write", "coordinate format %8.3f", "", "mdcrd coordinates are written as %s (AMBER specifies 8.3)" % (fw,))
-    per_line = None
-    for n in walk_no_nested(w):
-        if isinstance(n, ast.Compare) and "% 10" in src(n):
-            per_line = 10
-    ctx.decide(per_line == 10, "C01-R4", w, rel, cls + ".write", "10 values per line", "", "line break is not every 10 values")
-    # reader: float(line[j:j+8]) for j in range(0, len(...), 8)
-    ok = False
-    for n in ast.walk(r):
-        if isinstance(n, ast.ListComp) and "float(line[" in src(n):
-            g = n.generators[0]
-            step = const(g.iter.args[2]) if isinstance(g.iter, ast.Call) and len(g.iter.args) == 3 else None
-            m = re.search(r"line\[j:j \+ (\d+)\]", src(n))
-            ok = step == 8 and m is not None and int(m.group(1)) == 8
-    ctx.decide(ok, "C01-R4", r, rel, cls + "._read", "reader consumes 8-character fields", "", "mdcrd reader does not cut the line into 8-character fields")
+    # ---- mdcrd, gro: decided by value in R8 (writer and reader evaluated)
     # ---- rst7 ----------------------------------------------------------------------------------------------
     rel, cls = F.rel_cls("rst7")
     w = F.method(ctx, "rst7", "write")
@@ -421,111 +396,10 @@ def _r4(ctx):
         ctx.decide(fields == [(12, 7)] * 6, "C01-R4", w, rel, cls + ".write", "6 x %12.7f per line", "", "restart coordinates are written as %s (AMBER specifies 6F12.7)" % fields)
         _match_slices(ctx, "C01-R4", rel, cls + "._parse", sp, [s for s in L.comprehension_slices(r, "line") if "float" in src(ctx.py.mod(rel).parents.get(s[2]) or s[2])],
                       "line", r)
-    # ---- gro prefix ---------------------------------------------------------------------------------------
-    rel, cls = F.rel_cls("gro")
-    w = F.method(ctx, "gro", "_write_frame")
-    from ..pyfront import fold_str
-    inner = None
-    for n in walk_no_nested(w):
-        if isinstance(n, ast.Assign) and dotted(n.targets[0]) == "fmt":
-            # '%%5d%%-5s%%5s%%5d%%%d.%df...' % (varwidth, precision, ...), or the same built from pieces: folded to '%5d%-5s%5s%5d%{varwidth}.{precision}f...'
-            inner = fold_str(w, n.value)
-    if inner is None:
-        ctx.undecided("C01-R4", w, rel, cls + "._write_frame", "gro atom line format", "the format of the atom line could not be folded to one template")
-    else:
-        prefix = inner.split("%{")[0]
-        psp = L.spans(L.parse_percent(prefix))
-        pw = psp[-1]["end"] if psp else None
-        ctx.decide(pw == 20, "C01-R4", w, rel, cls + "._write_frame", "fixed prefix of the atom line is 20 columns", "",
-                   "the columns before the coordinates are %s wide; the reader starts the coordinates at column 20" % pw)
-        trip = re.findall(r"%\{(\w+)\}\.\{(\w+)\}f", inner)
-        ctx.decide(len(trip) == 3 and len(set(trip)) == 1, "C01-R4", w, rel, cls + "._write_frame", "three coordinate fields of equal width.precision", "",
-                   "coordinate fields differ: %s (the reader infers one width from the distance between decimal points)" % trip)
-        # the width / precision placeholders of the coordinate fields, through single-definition locals: width = precision + 5
-        from ..pyfront import inline_locals as _inl
-        wtxt = ptxt = None
-        if trip:
-            wtxt = _inl(w, ast.parse(trip[0][0], mode="eval").body).replace(" ", "")
-            ptxt = _inl(w, ast.parse(trip[0][1], mode="eval").body).replace(" ", "")
-        ctx.decide(wtxt in ("precision+5", "5+precision", "(precision+5)") and ptxt == "precision", "C01-R4", w, rel, cls + "._write_frame", "coordinate fields are %<precision + 5>.<precision>f", "",
-                   "the coordinate fields are written with width `%s` and precision `%s`; GROMACS: ddd.ppp with 4 leading columns, i.e. width = precision + 5" % (wtxt, ptxt))
-        pr = ctx.py.func(rel, "_parse_gro_coord")
-        ctx.decide("line[20 + i * digits:20 + (i + 1) * digits]" in src(pr), "C01-R4", pr, rel, "_parse_gro_coord", "coordinates start at column 20, width = decimal distance", "",
-                   "gro coordinate parser no longer reads three contiguous fields from column 20")
-        tp = F.method(ctx, "gro", "_read_topology")
-        ctx.decide("line[i * 5:i * 5 + 5].strip() for i in range(4)" in src(tp), "C01-R4", tp, rel, cls + "._read_topology", "four 5-column identity fields", "",
-                   "the residue/atom identity columns are not read as 4 x 5 columns")
 
 
 def _r5(ctx):
-    # ---- xyz tokens ------------------------------------------------------------------------------------
-    rel, cls = F.rel_cls("xyz")
-    w = F.method(ctx, "xyz", "write")
-    r = F.method(ctx, "xyz", "_read")
-    js = [n for n in walk_no_nested(w) if isinstance(n, ast.JoinedStr) and "coord[0]" in src(n)]
-    if not js:
-        ctx.undecided("C01-R5", w, rel, cls + ".write", "atom line", "f-string not found")
-    else:
-        toks = [src(v.value) for v in js[0].values if isinstance(v, ast.FormattedValue)]
-        ctx.decide(toks == ["types[j]", "coord[0]", "coord[1]", "coord[2]"], "C01-R5", js[0], rel, cls + ".write", "tokens: type x y z", "", "xyz atom line tokens are %s" % toks)
-        # the reader side by what it does, not by how it is spelled: the tokens of `<line>.split()` that are consumed, and which of them go through float()
-        tokvars = {t.id for n in walk_no_nested(r) if isinstance(n, ast.Assign) and isinstance(n.value, ast.Call) and isinstance(n.value.func, ast.Attribute) and n.value.func.attr == "split"
-                   for t in n.targets if isinstance(t, ast.Name)}
-        used = {"float": set(), "plain": set()}
-        for st in walk_no_nested(r):
-            if not isinstance(st, (ast.Assign, ast.AugAssign, ast.Expr)):
-                continue
-            numeric = any((isinstance(c, ast.Call) and call_name(c) == "float") or (isinstance(c, ast.Name) and c.id == "float") for c in ast.walk(st))
-            for sub in ast.walk(st):
-                if isinstance(sub, ast.Subscript) and isinstance(sub.value, ast.Name) and sub.value.id in tokvars:
-                    sl = sub.slice
-                    if isinstance(sl, ast.Constant) and isinstance(sl.value, int):
-                        idx = {sl.value}
-                    elif isinstance(sl, ast.Slice) and sl.step is None and all(x is None or (isinstance(x, ast.Constant) and isinstance(x.value, int)) for x in (sl.lower, sl.upper)) and sl.upper is not None:
-                        idx = set(range(sl.lower.value if sl.lower else 0, sl.upper.value))
-                    else:
-                        idx = {"?" + src(sl)}
-                    used["float" if numeric else "plain"] |= idx
-        if not tokvars:
-            ctx.undecided("C01-R5", r, rel, cls + "._read", "token indices", "no `<line>.split()` found in the reader")
-        else:
-            ctx.decide(used["plain"] == {0} and used["float"] == {1, 2, 3}, "C01-R5", r, rel, cls + "._read", "reads token 0 as type, tokens 1..3 as x y z through float()", "",
-                       "the reader takes tokens %s as text and %s as numbers (the writer emits: type x y z)" % (sorted(used["plain"], key=str), sorted(used["float"], key=str)))
-    # ---- lammpstrj -------------------------------------------------------------------------------------
-    rel, cls = F.rel_cls("lammpstrj")
-    w = F.method(ctx, "lammpstrj", "write")
-    hdr = [n.value for n in ast.walk(w) if isinstance(n, ast.Constant) and isinstance(n.value, str) and n.value.startswith("ITEM: ATOMS")]
-    js = [n for n in walk_no_nested(w) if isinstance(n, ast.JoinedStr) and "coord[0]" in src(n)]
-    if not hdr or not js:
-        ctx.undecided("C01-R5", w, rel, cls + ".write", "ATOMS header / row", "not found")
-    else:
-        cols = hdr[0].split()[2:]
-        toks = [src(v.value) for v in js[0].values if isinstance(v, ast.FormattedValue)]
-        ok = cols[:2] == ["id", "type"] and len(cols) == 5 and toks == ["j + 1", "types[j]", "coord[0]", "coord[1]", "coord[2]"] and \
-            [c[0] for c in cols[2:]] == ["x", "y", "z"]
-        ctx.decide(ok, "C01-R5", js[0], rel, cls + ".write", "header columns %s match the row tokens" % cols, "", "header %s vs row tokens %s" % (cols, toks))
-        r = F.method(ctx, "lammpstrj", "_read")
-        ctx.decide("columns[keywords[0]]" in src(r) and "columns['id']" in src(r).replace('"', "'"), "C01-R5", r, rel, cls + "._read", "reader locates columns by header name", "", "reader no longer maps columns by the header")
-    # ---- gro box permutation ---------------------------------------------------------------------------
-    rel, cls = F.rel_cls("gro")
-    w = F.method(ctx, "gro", "_write_frame")
-    r = F.method(ctx, "gro", "_read_frame")
-    W = []
-    from ..pyfront import fold_str
-    for n in walk_no_nested(w):
-        if isinstance(n, ast.Call) and isinstance(n.func, ast.Attribute) and n.func.attr in ("append", "write") and n.args and "box" in src(n.args[0]):
-            t = fold_str(w, n.args[0])
-            if t and "box[" in t:
-                W = [(int(a_), int(b_)) for a_, b_ in re.findall(r"\{box\[(\d), ?(\d)\]", t)]
-    M = _gro_reader_matrix(r)
-    if len(W) != 9 or len(M) != 9:
-        ctx.undecided("C01-R5", w, rel, cls, "gro box permutation", "writer order (%d) / reader matrix (%d) not recognised" % (len(W), len(M)))
-    else:
-        for k, rc in enumerate(W):
-            ctx.decide(M.get(rc) == k, "C01-R5", r, rel, cls + "._read_frame", "box token %d -> element %s" % (k, rc), "",
-                       "the writer emits box%s as token %d but the reader places token %s there" % (list(rc), k, M.get(rc)))
-        gm = [(0, 0), (1, 1), (2, 2), (0, 1), (0, 2), (1, 0), (1, 2), (2, 0), (2, 1)]
-        ctx.decide(W == gm, "C01-R5", w, rel, cls + "._write_frame", "GROMACS order v1(x) v2(y) v3(z) v1(y) v1(z) v2(x) v2(z) v3(x) v3(y)", "", "box line order is %s" % W)
+    # ---- xyz tokens, lammpstrj columns, the gro box permutation: decided by value in R8 (writer and reader evaluated)
     # ---- dcd / dtr cell field mapping --------------------------------------------------------------------
     want = {"A": ("lengths", 0), "B": ("lengths", 1), "C": ("lengths", 2), "alpha": ("angles", 0), "beta": ("angles", 1), "gamma": ("angles", 2)}
     for key in ("dcd", "dtr"):
@@ -809,7 +683,7 @@ def r8_text_round_trip(ctx):
         return [p for p in pieces if isinstance(p, FVal) and repr(p.value) in xs]
     variants = {"xyz": [dict(cell=False, time=False)], "mdcrd": [dict(cell=True, time=False), dict(cell=False, time=False)],
                 "lammpstrj": [dict(cell=True, ortho=True, time=False), dict(cell=True, time=False)],
-                "gro": [dict(cell=True, time=True), dict(cell=False, time=False), dict(cell=True, time=False)]}
+                "gro": [dict(cell=True, time=True), dict(cell=False, time=False), dict(cell=True, time=False), dict(cell="triangular", time=True)]}
     for key in ("xyz", "mdcrd", "lammpstrj", "gro"):
         rel, cls = F.rel_cls(key)
         wfn = F.method(ctx, key, "write")
@@ -888,6 +762,54 @@ def r8_text_round_trip(ctx):
                 ctx.decide(specs == {"8.3f"} and per_line == want, "C01-R8", wfn, rel, q, "coordinates as 10F8.3 (%s)" % vdesc, "",
                            "coordinates are written with %s, %s per line (AMBER: 10F8.3)" % (sorted(specs), per_line[:4]))
         if key == "gro":
+            _r8_rst7(ctx, W, T, same)
+            # ---- the box line in the published order, from the pieces written
+            try:
+                root = W.new_root()
+                world = W.World(1, cell=True, time=False)
+                pieces = W.written(ctx, key, world, [(0, 1)], root)
+                ls, tail = T.lines(pieces)
+                bs = {repr(v): k_ for k_, v in enumerate(world.B.data)}
+                box_lines = [[bs[repr(p.value)] for p in l_ if isinstance(p, FVal) and repr(p.value) in bs] for l_ in ls]
+                box_lines = [l_ for l_ in box_lines if l_]
+                gm = [0 * 3 + 0, 1 * 3 + 1, 2 * 3 + 2, 0 * 3 + 1, 0 * 3 + 2, 1 * 3 + 0, 1 * 3 + 2, 2 * 3 + 0, 2 * 3 + 1]
+                ctx.decide(box_lines == [gm], "C01-R8", wfn, rel, q, "box line in GROMACS order v1(x) v2(y) v3(z) v1(y) v1(z) v2(x) v2(z) v3(x) v3(y)", "",
+                           "the box line holds the elements %s of the cell matrix (row-major numbering)" % (box_lines[0] if box_lines else None,))
+                # ---- identity columns: what _read_topology makes of the atom lines
+                fh = W.text_file(pieces)
+                me = W.reader_object(ctx, key, fh)
+                made = {"res": [], "atoms": []}
+                from ..tensym import Obj
+
+                def mktop(ev, call, made=made):
+                    top = Obj(tag="topology", _lenient=True)
+                    top.add_chain = lambda *a_, **k_: Obj(tag="chain")
+
+                    def add_residue(name, chain, resSeq=None, **k_):
+                        r_ = Obj(tag="residue", name=name, resSeq=resSeq)
+                        made["res"].append((name, resSeq))
+                        return r_
+                    top.add_residue = add_residue
+                    top.add_atom = lambda name, element=None, residue=None, serial=None, **k_: made["atoms"].append((name, getattr(residue, "name", None), getattr(residue, "resSeq", None), serial))
+                    top.create_standard_bonds = lambda *a_, **k_: None
+                    return top
+                tables = Obj(_residueNameReplacements={}, _atomNameReplacements={}, _loadNameReplacementTables=lambda: None)
+                from ..tensym import TenSym as _TS
+                mod = ctx.py.mod(rel)
+                ts = _TS({"pdb": Obj(PDBTrajectoryFile=tables), "elem": Obj(get_by_symbol=lambda s_: Obj(tag="element", symbol=s_), virtual=Obj(tag="element", symbol="VS"))},
+                         funcs={q_: f_ for q_, f_ in mod.functions.items() if "." not in q_},
+                         models={"md.Topology": mktop, "Topology": mktop, "warnings.warn": lambda ev, c: None, "pdb.PDBTrajectoryFile._loadNameReplacementTables": lambda ev, c: None}, parent=root)
+                ts.assume = W.default_assume
+                rt = ts.run_fn(F.method(ctx, key, "_read_topology"), self=me)
+                ats = world.top.atoms
+                want = [(a_.name, a_.residue.name, a_.residue.resSeq, a_.serial if a_.serial is not None else a_.index) for a_ in ats]
+                n_read = rt[0] if isinstance(rt, tuple) else None
+                ctx.decide(made["atoms"] == want and n_read == W.N_ATOMS, "C01-R8", wfn, rel, q, "atom name, residue name, residue number and serial of every atom come back as written", "",
+                           "the topology read from the atom lines is %s (n_atoms %s); written from %s" % (made["atoms"][:2], n_read, want[:2]))
+            except Raised as e:
+                ctx.violated("C01-R8", wfn, rel, q, "box line order / identity columns", "refused: %s" % (e.exc or e))
+            except PUnsupported as e:
+                ctx.undecided("C01-R8", wfn, rel, q, "box line order / identity columns", "not evaluable: %s" % e)
             for prec in (3, 5):
                 try:
                     root = W.new_root()
@@ -910,3 +832,45 @@ def r8_text_round_trip(ctx):
                 xyz = got[0]
                 ok = isinstance(xyz, Ten) and xyz.shape == world.x.shape and all(same(a, b) for a, b in zip(xyz.data, world.x.data))
                 ctx.decide(ok, "C01-R8", wfn, rel, q, "precision=%d: coordinates come back as written" % prec, "", "the reader does not recover the coordinates written with precision %d" % prec)
+
+
+def _r8_rst7(ctx, W, T, same):
+    """AMBER ASCII restart: write() evaluated, then _parse() on the lines written - for 1..4 atoms (the parser counts lines: an odd atom count ends on a
+    half-filled line; 1 and 2 atoms are told apart from velocities by the values), without a cell, with a symbolic cell, and with a concrete rectangular
+    cell whose edges are all below 60 A (the value the 2-atom heuristic tests against)."""
+    from ..tensym import Raised, Ten
+    from ..pysym import Unsupported as PUnsupported
+    key = "rst7"
+    rel, cls = F.rel_cls(key)
+    wfn = F.method(ctx, key, "write")
+    q = cls + ".write / ._parse"
+    for na in (1, 2, 3, 4):
+        for cell in (False, True, "small", "large"):
+            if na <= 2 and cell is True:
+                continue        # 1 / 2 atoms: whether the 4th line is a box is decided from its values - concrete cells only
+            desc = "%d atom%s, cell %s: coordinates, time and cell come back as written" % (na, "" if na == 1 else "s", {False: "absent", True: "symbolic"}.get(cell, cell))
+            root = W.new_root()
+            world = W.World(1, cell=cell, time=True, n_atoms=na)
+            try:
+                pieces = W.written(ctx, key, world, [(0, 1)], root)
+                got, me = W.parse_lines(ctx, key, "_parse", pieces, root)
+            except Raised as e:
+                ctx.violated("C01-R8", wfn, rel, q, desc, "the file written is refused: %s" % (e.exc or e))
+                continue
+            except PUnsupported as e:
+                ctx.undecided("C01-R8", wfn, rel, q, desc, "not evaluable: %s" % e)
+                continue
+            xyz, tm, L, A = got
+            why = []
+            if not (isinstance(xyz, Ten) and xyz.shape == world.x.shape and all(same(a, b) for a, b in zip(xyz.data, world.x.data))):
+                why.append("coordinates read back as %s" % (repr(getattr(xyz, "data", xyz))[:100],))
+            if not (isinstance(tm, Ten) and len(tm.data) == 1 and same(tm.data[0], world.t.data[0])):
+                why.append("time reads back as %s" % (repr(getattr(tm, "data", tm))[:60],))
+            if cell:
+                if not (isinstance(L, Ten) and all(same(a, b) for a, b in zip(L.data, world.L.data)) and len(L.data) == 3):
+                    why.append("cell lengths read back as %s" % (repr(getattr(L, "data", L))[:60],))
+                if not (isinstance(A, Ten) and all(same(a, b) for a, b in zip(A.data, world.A.data)) and len(A.data) == 3):
+                    why.append("cell angles read back as %s" % (repr(getattr(A, "data", A))[:60],))
+            elif L is not None or A is not None:
+                why.append("a cell is read from a file written without one")
+            ctx.decide(not why, "C01-R8", wfn, rel, q, desc, "", "; ".join(why))
